@@ -177,6 +177,7 @@ class FakeProcess:
         self.code = None
         self.stopped = False
         self.todo, self.buf, self.lost = [], [], []
+        self.batch_prios = []       # stays empty for a process that the tool creates but never starts
         W.new_proc(self)
 
     def start(self):
